@@ -13,6 +13,8 @@ Decided (AVN exact unless noted; unit quaternions as symbols with declared unit 
              angle 1e-4 rad; DCM.log has no tolerance shortcut;
  TWIN        single (ndim == 1) and batch arms agree row by row.
 Not decided: the triangle inequality (a statement about triples that is not an identity).
+Added after the seeding rounds (DESIGN.md 6.6-6.8):
+ COINCIDE-GUARD / LOG.arm / NO-SIGN-ZERO  arccos arguments on angular_distance's route are provably <= 1; euclidean has its closed form on both min arms.
 """
 import ast
 import math
